@@ -11,8 +11,11 @@ import (
 
 	"sigs.k8s.io/karpenter/pkg/state/nodepoolhealth"
 
+	"verif/harness/reg"
 	"verif/harness/trace"
 )
+
+func init() { reg.Register("health-unit", Unit) }
 
 func statusName(s nodepoolhealth.Status) string {
 	switch s {
